@@ -485,6 +485,7 @@ func checkC18(c *Ctx) {
 	ruleD6c(c)
 	ruleD6d(c)
 	ruleD6e(c)
+	ruleL5c(c)
 	ruleD6f(c)
 	ruleQ9(c)
 	ruleQ9b(c)
